@@ -198,6 +198,23 @@ func c10Perform(t *rapid.T, m *c10Mon, scope int, b Beh, msg string) {
 		m.reg(t, scope, 1, func() { t.Errorf("nonfatal in cleanup: %s", msg) })
 		m.useCtx(t, scope, 1)
 		t.Skip("skip " + msg)
+	case BRcpCustomDrawnInCleanup:
+		// a Custom generator used from inside a Cleanup function: its function is a call of its own and
+		// gets a live context, whatever state the enclosing invocation is in
+		g := rapid.Custom(func(it *rapid.T) int {
+			is := m.newScope()
+			m.ev("begin", is, 1)
+			defer m.ev("end", is, 0)
+			m.useCtx(it, is, 1)
+			m.reg(it, is, 1, nil)
+			v := rapid.IntRange(0, 3).Draw(it, "inner")
+			m.useCtx(it, is, 2)
+			return v
+		})
+		m.reg(t, scope, 1, nil)
+		m.reg(t, scope, 2, func() { g.Draw(t, "drawn-in-cleanup") })
+		m.useCtx(t, scope, 1)
+		m.reg(t, scope, 3, nil)
 	case BRcpNilCleanup:
 		m.reg(t, scope, 1, nil)
 		m.reg(t, scope, 2, nil)
@@ -262,7 +279,7 @@ func c10Perform(t *rapid.T, m *c10Mon, scope int, b Beh, msg string) {
 	}
 }
 
-var c10Alpha = []Beh{BRcpNone, BRcp1, BRcp3, BRcpNested, BRcpPanicMid, BRcpErrorfMid, BRcpCtxInCleanup, BRcpThenFatal, BRcpThenSkip, BRcpThenPanic, BRcpThenErrorf, BRcpCustom, BRcpCustomSkip, BRcpGoroutineCleanup, BRcpCustomFatal, BRcpCustomPanic, BRcpCleanupSkips, BRcpSkipWithCleanupErrorf, BRcpTwoPanickingCleanups, BRcpFatalAndSkipCleanups, BRcpThreeAbnormalCleanups, BRcpNilCleanup}
+var c10Alpha = []Beh{BRcpNone, BRcp1, BRcp3, BRcpNested, BRcpPanicMid, BRcpErrorfMid, BRcpCtxInCleanup, BRcpThenFatal, BRcpThenSkip, BRcpThenPanic, BRcpThenErrorf, BRcpCustom, BRcpCustomSkip, BRcpGoroutineCleanup, BRcpCustomFatal, BRcpCustomPanic, BRcpCleanupSkips, BRcpSkipWithCleanupErrorf, BRcpTwoPanickingCleanups, BRcpFatalAndSkipCleanups, BRcpThreeAbnormalCleanups, BRcpNilCleanup, BRcpCustomDrawnInCleanup}
 
 func c10Prog(m func() *c10Mon, T int16) *LazyProgram {
 	return &LazyProgram{
